@@ -104,9 +104,8 @@ Definition isoweek1monday (y : Z) : Z :=
   let week1monday := firstday - firstweekday in
   if 3 <? firstweekday then week1monday + 7 else week1monday.
 
-(* date.isocalendar() -> (iso year, iso week) *)
-Definition isocalendar (o : Z) : Z * Z :=
-  let year := year_of o in
+(* date.isocalendar() -> (iso year, iso week), given the year of the date *)
+Definition isocal_y (year o : Z) : Z * Z :=
   let w1 := isoweek1monday year in
   let week := (o - w1) / 7 in
   if week <? 0 then
@@ -115,6 +114,7 @@ Definition isocalendar (o : Z) : Z * Z :=
     (year, (o - w1) / 7 + 1)
   else if (52 <=? week) && (isoweek1monday (year + 1) <=? o) then (year + 1, 1)
   else (year, week + 1).
+Definition isocalendar (o : Z) : Z * Z := isocal_y (year_of o) o.
 
 (* ---------- simple extractors (query_env.py: year month day yearmonth quarter weekday) ---------- *)
 Definition f_year (o : Z) : value := VInt (year_of o).
@@ -139,8 +139,8 @@ Definition tunit_name (u : tunit) : string :=
 Definition tunit_of (f : list Z) : option tunit :=
   find (fun u => zeqb f (s2z (tunit_name u))) all_tunits.
 
-Definition trunc_u (u : tunit) (o : Z) : value :=
-  let '(y, m, d) := ord2ymd o in
+Definition trunc_ymd (u : tunit) (t : Z * Z * Z) (o : Z) : value :=
+  let '(y, m, d) := t in
   match u with
   | UWeek => add_days o (- weekday o)          (* x - relativedelta(weekday=MO(-1)) *)
   | UMonth => mk_date y m 1
@@ -150,9 +150,11 @@ Definition trunc_u (u : tunit) (o : Z) : value :=
   | UCentury => mk_date (y - (y - 1) mod 100) 1 1
   | UMillennium => mk_date (y - (y - 1) mod 1000) 1 1
   end.
+Definition trunc_u (u : tunit) (o : Z) : value := trunc_ymd u (ord2ymd o) o.
 
-Definition date_trunc (field : list Z) (o : Z) : value :=
-  match tunit_of field with Some u => trunc_u u o | None => VNull end.
+Definition trunc_opt (u : option tunit) (o : Z) : value :=
+  match u with Some u => trunc_u u o | None => VNull end.
+Definition date_trunc (field : list Z) (o : Z) : value := trunc_opt (tunit_of field) o.
 
 (* ---------- date_part ---------- *)
 Inductive punit := PWeekday | PIsoweekday | PWeek | PMonth | PQuarter | PYear | PIsoyear
@@ -166,24 +168,26 @@ Definition punit_of (f : list Z) : option punit :=
 
 Definition EPOCH_ORD := 719163.   (* date(1970, 1, 1).toordinal() *)
 
-Definition part_u (p : punit) (o : Z) : Z :=
-  let '(y, m, d) := ord2ymd o in
+Definition part_ymd (p : punit) (t : Z * Z * Z) (o : Z) : Z :=
+  let '(y, m, d) := t in
   match p with
   | PWeekday => weekday o
   | PIsoweekday => isoweekday o
-  | PWeek => snd (isocalendar o)
+  | PWeek => snd (isocal_y y o)
   | PMonth => m
   | PQuarter => (m - 1) / 3 + 1
   | PYear => y
-  | PIsoyear => fst (isocalendar o)
+  | PIsoyear => fst (isocal_y y o)
   | PDecade => y / 10
   | PCentury => (y - 1) / 100 + 1
   | PMillennium => (y - 1) / 1000 + 1
   | PEpoch => (o - EPOCH_ORD) * 86400
   end.
+Definition part_u (p : punit) (o : Z) : Z := part_ymd p (ord2ymd o) o.
 
-Definition date_part (field : list Z) (o : Z) : value :=
-  match punit_of field with Some p => VInt (part_u p o) | None => VNull end.
+Definition part_opt (p : option punit) (o : Z) : value :=
+  match p with Some p => VInt (part_u p o) | None => VNull end.
+Definition date_part (field : list Z) (o : Z) : value := part_opt (punit_of field) o.
 
 (* ---------- date_add, date_diff, date +/- int, date - date ---------- *)
 Definition date_add (o n : Z) : value := add_days o n.
@@ -206,8 +210,8 @@ Definition rd_make (years months days : Z) : rdelta :=
 Definition rd_neg (r : rdelta) : rdelta := mkrd (- rd_years r) (- rd_months r) (- rd_days r).
 
 (* relativedelta.__radd__(date) *)
-Definition rd_add (o : Z) (r : rdelta) : value :=
-  let '(y, m, d) := ord2ymd o in
+Definition rd_add_ymd (t : Z * Z * Z) (r : rdelta) : value :=
+  let '(y, m, d) := t in
   let year := y + rd_years r in
   let month := m + rd_months r in
   let '(year, month) :=
@@ -216,6 +220,7 @@ Definition rd_add (o : Z) (r : rdelta) : value :=
   if (year <? 1) || (9999 <? year) then VErr 1 else     (* dt.replace(year=...) ValueError *)
   let day := Z.min (days_in_month year month) d in
   add_days (ymd2ord year month day) (rd_days r).
+Definition rd_add (o : Z) (r : rdelta) : value := rd_add_ymd (ord2ymd o) r.
 
 Definition date_plus_rd (o : Z) (r : rdelta) : value := rd_add o r.
 Definition date_minus_rd (o : Z) (r : rdelta) : value := rd_add o (rd_neg r).   (* __rsub__ *)
